@@ -53,6 +53,8 @@ func NewServer(parse ParseFn, options ...OptionFn) (*Server, error) {
 // Server contains options for listening to an address.
 type Server struct {
 	closing         atomic.Bool
+	closeOnce       sync.Once
+	mu              sync.RWMutex // guards the admission of new commands while closing
 	wg              sync.WaitGroup
 	logger          *slog.Logger
 	types           []func(*pgtype.Map)
@@ -180,12 +182,15 @@ func (srv *Server) serve(ctx context.Context, conn net.Conn) error {
 
 // Close gracefully closes the underlaying Postgres server.
 func (srv *Server) Close() error {
-	if srv.closing.Load() {
-		return nil
-	}
+	srv.closeOnce.Do(func() {
+		// NOTE: commands are admitted while holding the read lock, no command
+		// is admitted once the closing flag has been set.
+		srv.mu.Lock()
+		srv.closing.Store(true)
+		srv.mu.Unlock()
+		close(srv.closer)
+	})
 
-	srv.closing.Store(true)
-	close(srv.closer)
 	srv.wg.Wait()
 	return nil
 }
